@@ -665,9 +665,15 @@ def P8(m, R):
             gnode = next((nd for nd in cfg.nodes if nd.kind == 'test' and nd.stmt is guards[0]), None)
             ok = gnode is not None and cfg.dominates(gnode, node)
             # the id recorded is the id of the list being unpacked, and the recursive call passes the id list on
-            passes = len(rec[0].args) >= 3 or any(k.arg == 'parsed_ids' for k in rec[0].keywords)
-            records = any(isinstance(x, ast.Call) and call_name(x) == 'append' and 'id(' in norm(x) for x in f.walk())
-            ok = ok and passes and records
+            passed = rec[0].args[2] if len(rec[0].args) >= 3 else next((k.value for k in rec[0].keywords if k.arg == (f.params[2] if len(f.params) > 2 else 'parsed_ids')), None)
+            passes = isinstance(passed, ast.Name)
+            pv = passed.id if passes else None
+            # the id of the list being unpacked goes into that variable: V.append(id(..)), V = <expr with id(..)>, V += [id(..)]
+            records = any((isinstance(x, ast.Call) and call_name(x) in ('append', 'add') and isinstance(x.func, ast.Attribute) and is_name(x.func.value, pv) and 'id(' in norm(x)) or
+                          (isinstance(x, ast.Assign) and is_name(x.targets[0], pv) and 'id(' in norm(x.value)) or
+                          (isinstance(x, ast.AugAssign) and is_name(x.target, pv) and 'id(' in norm(x.value)) for x in f.walk())
+            tested = pv is not None and pv in names_in(guards[0].test)
+            ok = ok and passes and records and tested
         R.check(ok, f, rec[0], 'the recursive call is dominated by the "list contains itself" test; ids are recorded and passed down',
                 'the recursion on nested lists is not protected against a list that contains itself (unbounded recursion)', construct=cons)
 
